@@ -594,7 +594,8 @@ Example example_claims_open_nonvacuous :
 Proof.
   destruct (w_hub cx_w1) as [h|] eqn:E; [|vm_compute in E; discriminate].
   exists h. split; [reflexivity|].
-  destruct (ClaimsInv_reachable 100 (cx_setup ++ cx_acts1) eq_refl h E) as [Ho HI].
+  pose proof (ClaimsInv_reachable 100 (cx_setup ++ cx_acts1) eq_refl) as HR. fold cx_w1 in HR.
+  destruct (HR h E) as [Ho HI]. clear HR.
   split; [exact Ho|]. split; [exact HI|].
   vm_compute in E. inversion E; subst. repeat split.
 Qed.
@@ -607,7 +608,8 @@ Example example_claims_closed_nonvacuous :
     he_bamt e = 25870 /\ he_samt e = 10000 /\ he_released e = false /\ he_time e = 1000031.
 Proof.
   destruct (w_hub cx_w2) as [h|] eqn:E; [|vm_compute in E; discriminate].
-  destruct (ClaimsInv_reachable 100 (cx_setup ++ cx_acts1 ++ cx_acts2) eq_refl h E) as [Ho HI].
+  pose proof (ClaimsInv_reachable 100 (cx_setup ++ cx_acts1 ++ cx_acts2) eq_refl) as HR. fold cx_w2 in HR.
+  destruct (HR h E) as [Ho HI]. clear HR.
   vm_compute in E. inversion E; subst. eexists _, _. split; [reflexivity|]. split; [exact HI|].
   repeat split.
 Qed.
@@ -619,7 +621,8 @@ Example example_claims_paid_nonvacuous :
     get N.eqb (h_hist h) 1 = Some e /\ he_bamt e = 25870 /\ he_samt e = 10000 /\ he_released e = true.
 Proof.
   destruct (w_hub cx_w3) as [h|] eqn:E; [|vm_compute in E; discriminate].
-  destruct (ClaimsInv_reachable 100 _ cx_legacy_free h E) as [Ho HI].
+  pose proof (ClaimsInv_reachable 100 _ cx_legacy_free) as HR. fold cx_w3 in HR.
+  destruct (HR h E) as [Ho HI]. clear HR.
   vm_compute in E. inversion E; subst. eexists _, _. split; [reflexivity|]. split; [exact HI|].
   repeat split.
 Qed.
@@ -631,7 +634,12 @@ Example example_unbond_effect_nonvacuous :
     unbond_fee cx_w1 h A_hub 1000 = Some 5 /\
     out = [MWasm A_bsei (WCw20 (CBurn 1000)) []] /\
     wait_of h' cx_alice 1 = (20895, 0) /\ h_batch h' = mkBatch 1 25870 10000.
-Proof. vm_compute. do 3 eexists. repeat split. Qed.
+Proof.
+  destruct (w_hub cx_w1) as [h|] eqn:E; [|vm_compute in E; discriminate].
+  vm_compute in E. inversion E; subst h. clear E.
+  eexists _, _, _. split; [reflexivity|]. split; [vm_compute; reflexivity|].
+  vm_compute. repeat split.
+Qed.
 
 (** ... and an stSei unbond one second past the epoch that closes it *)
 Example example_unbond_closing_nonvacuous :
@@ -640,7 +648,12 @@ Example example_unbond_closing_nonvacuous :
     hub_execute w h A_hub A_stsei [] (HReceive cx_bob 700 HkUnbond) = Some (h', out) /\
     out = [MUndelegate 1 (usei, v1); MUndelegate 0 (usei, v2); MWasm A_stsei (WCw20 (CBurn 700)) []] /\
     wait_of h' cx_bob 1 = (4975, 10700) /\ h_batch h' = mkBatch 2 0 0.
-Proof. vm_compute. do 5 eexists. repeat split. Qed.
+Proof.
+  destruct (w_hub (fst (step cx_w1 (OAdvance 31)))) as [h|] eqn:E; [|vm_compute in E; discriminate].
+  vm_compute in E. inversion E; subst h. clear E.
+  eexists _, _, _, _, _. cbn zeta. split; [vm_compute; reflexivity|]. split; [vm_compute; reflexivity|].
+  vm_compute. repeat split.
+Qed.
 
 (** the E6 hypothesis is needed: a migration of a legacy entry overwrites a v2 claim, so the
     wait list no longer adds up to the open batch total *)
